@@ -90,6 +90,32 @@ def case_handcoded(ctx, model, axis):
         ctx.equal("stress_free_reference", P0, np.zeros((3, 3), dtype=int))
 
 
+def case_reused_buffers(ctx, model):
+    """the response is a function of F alone also when the caller recycles result buffers (SolidBody hands the previous stress /
+    elasticity arrays back as out=): after an evaluation at an arbitrary F1 the stress at the reference state is zero, the
+    Kirchhoff stress at F is symmetric and the elasticity tensor keeps its major symmetry"""
+    mat = build(ctx, model)
+    F1 = Fvar(ctx, 3)
+    F = np.array([[ctx.var("G_%d_%d" % (i, j), (1.0 if i == j else 0.0) - 0.3, (1.0 if i == j else 0.0) + 0.3) for j in range(3)] for i in range(3)], dtype=object if ctx.sym else float)
+    ctx.assume(det3(F1) > 0.2)
+    ctx.assume(det3(F) > 0.2)
+    sv = np.zeros((0, 1, 1))
+    dt = object if ctx.sym else float
+    bufP = np.zeros((3, 3, 1, 1), dtype=dt)
+    bufA = np.zeros((3, 3, 3, 3, 1, 1), dtype=dt)
+    mat.gradient([q(F1), sv], out=bufP)
+    mat.hessian([q(F1), sv], out=bufA)
+    I = ctx.const_array(np.eye(3))
+    P0 = np.array(np.asarray(mat.gradient([q(I), sv], out=bufP)[0])[:, :, 0, 0], copy=True)
+    ctx.equal("stress_free_reference_with_recycled_buffer", P0, np.zeros((3, 3), dtype=int))
+    P = np.array(np.asarray(mat.gradient([q(F), sv], out=bufP)[0])[:, :, 0, 0], copy=True)
+    Pfresh = np.asarray(mat.gradient([q(F), sv])[0])[:, :, 0, 0]
+    ctx.equal("recycled_buffer_gives_the_same_stress", P, Pfresh)
+    ctx.equal("kirchhoff_stress_symmetric_with_recycled_buffer", mm(P, F.T), mm(P, F.T).T)
+    A = np.array(np.asarray(mat.hessian([q(F), sv], out=bufA)[0])[:, :, :, :, 0, 0], copy=True)
+    ctx.equal("major_symmetry_of_elasticity_with_recycled_buffer", A, np.transpose(A, (2, 3, 0, 1)))
+
+
 def case_ogden_roxburgh(ctx, axis):
     """pseudo-elastic wrapper around an abstract base: W(QF) = W(F) and P(QF) = Q P(F) are ASSUMED for the
     base (proved above for the concrete ones); the wrapper must pass them on.  Virgin state: Wmax = 0."""
@@ -274,6 +300,8 @@ def cases(tier):
     for mname in models:
         for ax in axes if tier == "thorough" else (0, 2):
             out.append(("handcoded", case_handcoded, {"model": mname, "axis": ax}))
+    for mname in ("NeoHooke", "NeoHooke_mu", "Volumetric", "NeoHookeCompressible"):
+        out.append(("reused_buffers", case_reused_buffers, {"model": mname}))
     out.append(("ogden_roxburgh", case_ogden_roxburgh, {"axis": 0}))
     for ax in axes:
         out.append(("tt_wrapper", case_wrapper, {"axis": ax}))
